@@ -158,11 +158,16 @@ def compileBody (body : Rep) (c : CState) : Option CState :=
 def compileHead : Rep → CState → String × Nat × CState
   | .atom s, c => (s, 0, c)
   | .compound f args, c => (f, args.length, compileHeadArgs args c)
-  | .list elems, c =>
-    match Rep.arg (.list elems) 0, Rep.arg (.list elems) 1 with
+  | .var _, c => (String.singleton (Char.ofNat 0), 0, c)
+  | .int _, c => (String.singleton (Char.ofNat 0), 0, c)
+  | .flt _, c => (String.singleton (Char.ofNat 0), 0, c)
+  | .str _, c => (String.singleton (Char.ofNat 0), 0, c)
+  | r, c =>
+    -- a list cell in any encoding is the compound '.'/2: arguments through the interface
+    -- (not callable otherwise: the Go code leaves pi zero — Atom(0)/0 — and callers reject such heads)
+    match Rep.arg r 0, Rep.arg r 1 with
     | some h, some t => (".", 2, compileHeadArg t (compileHeadArg h c))
-    | _, _ => ("", 0, c)
-  | _, c => ("", 0, c)     -- not callable: the Go code leaves pi zero; callers reject such heads
+    | _, _ => (String.singleton (Char.ofNat 0), 0, c)
 
 /-- a compiled clause -/
 structure Clause where
